@@ -765,7 +765,7 @@ def spawned_worker_loops(fv):
         if n.get("k") == "mcall" and is_spawn(n):
             for a in n.get("args", []):
                 if a.get("k") == "closure":
-                    loops = [x for x in walk(a) if x.get("k") == "loop"]
+                    loops = [x for x in walk(a) if x.get("k") in ("loop", "while")]
                     if loops:
                         out.append((a, loops[0]))
     return out
@@ -1161,3 +1161,30 @@ def as_format_row(fv, data):
     if len(ps) == 2 and ps[0][0] == "term" and ps[1][0] == "lit":
         return ("format", (("arg", 0, "display", None, None, None), ("lit", ps[1][1])), (ps[0][1],))
     return data
+
+
+
+def rule_spawn_count(ctx, rule, fv, who):
+    """workers are spawned by `for _ in 0..<threads>`: the range starts at 0 and ends at the thread count itself —
+    `1..threads` spawns no worker for one thread (nothing is read, the output stays empty / unwritten)"""
+    n = 0
+    for loop in fv.nodes:
+        if loop.get("k") != "for" or loop.get("pat", {}).get("k") != "pwild":
+            continue
+        if not any(c.get("k") == "mcall" and is_spawn(c) for c in walk(loop["body"])):
+            continue
+        it = fv.term(loop["iter"])
+        if not (it[0] == "struct" and it[1].endswith("ops::Range")):
+            continue
+        n += 1
+        f = dict(it[2])
+        start, end = f.get("start"), f.get("end")
+        ok = start == L(0) and end is not None and not contains(end, lambda s_: s_[0] == "bin" and s_[1] in ("-", "/", ">>")) \
+            and contains(end, lambda s_: (s_[0] == "field" and s_[2] == "threads") or s_[0] == "param"
+                         or (s_[0] == "local" and "thread" in str(s_[1]))
+                         or (s_[0] == "call" and s_[1].endswith("current_num_threads")))
+        ctx.check(rule, "%s:spawn_count@%d" % (who, n), ok, "one worker per thread: for _ in 0..%s" % (show(end) if end else "?"),
+                  "workers are spawned over `%s..%s`: with one thread (or few) no worker / too few workers run — records are "
+                  "never taken, rows stay unwritten, counts stay empty, and the run still reports success"
+                  % (show(start) if start else "?", show(end) if end else "?"), line_of(loop))
+    return n
